@@ -423,6 +423,7 @@ class LengthStructured(Family):
 
 
 class HugePushRoundTrip(Family):
+    no_history_pool = True       # cases are too heavy to be replayed in every ordered pair
     """one push of 2^24 - 1 / 2^24 / 2^24 + 77 bytes: build, raw iteration, cooked iteration, rebuild"""
     name = 'pushdata4_16MiB_roundtrip'
     nontrivial_rule = 'every case'
